@@ -67,6 +67,19 @@ def r1(ctx):
               "it starts a request is dropped, so a request shorter than the timeout is charged with the age of the previous beat and the healthy worker is killed", "os.utime on every notify()",
               path=pth and fn.cfg.fmt_path(pth))
     ctx.check("C11.R1", all("fileno" in norm(c.args[0]) for c in ut), key(fn, "writes-own-fd"), site(fn), "the heartbeat is not written to the worker's own temp file descriptor", "utime(self._tmp.fileno(), ..)")
+    # the *first* value too: a file fresh from mkstemp carries a wall-clock mtime; compared with the scanner's monotonic clock
+    # (seconds since boot) it lies decades in the future, so a worker that blocks before its first notify() -- an import or a
+    # post_fork / post_worker_init hook that hangs, SIGSTOP during boot -- is never found idle, never aborted, never replaced
+    fi = ctx.fn(repo.func(TMP + ".__init__"))
+    gi = fi.cfg
+    stamps = [n for c in walk_own(fi.node) if isinstance(c, ast.Call) and ((isinstance(c.func, ast.Attribute) and c.func.attr == "notify" and tail(c.func.value) == "self") or
+                                                                           repo.call_target(fi.module, fi, c) == "os.utime") for n in nodes_with(fi, c)]
+    pth = gi.must_pass(gi.entry, stamps, follow_exc=False) if stamps else gi.path(gi.entry, [gi.exit], follow_exc=False)
+    wall = set(q for q in wclk if q in ("time.time",))
+    ctx.check("C11.R1", (pth is None and bool(stamps)) or bool(wall), key(fi, "initial-timestamp-on-scanner-clock"), site(fi),
+              "WorkerTmp.__init__ returns with the heartbeat file still carrying the wall-clock mtime mkstemp gave it, while notify() writes and murder_workers() reads %s: "
+              "`clock() - last_update()` is hugely negative until the first notify(), so a worker that hangs while it boots is never timed out (with workers=1 the service is dead without a log line)" % sorted(wclk),
+              "the file is stamped with the heartbeat clock before the worker exists", path=pth and gi.fmt_path(pth))
     fm = ctx.fn(repo.func(ARB + ".murder_workers"))
     # the scanner's clock: what the heartbeat is subtracted from (`<clock>() - worker.tmp.last_update()`), wherever
     # that difference is computed (in the comparison itself or into a temporary)
@@ -190,15 +203,18 @@ def r3(ctx):
                           "an iteration of an `alive` loop of %s can complete without self.notify(): a healthy worker that stays in this loop (e.g. a never-empty accept backlog) "
                           "stops beating and is killed for inactivity" % f.short, "notify on every iteration")
             # serving is never repeated without a beat: no cycle through a call that accepts/serves a connection avoids
-            # notify() (bounded `for` loops over the ready listeners excepted) -- whatever loop shape the cycle has
+            # notify() -- whatever loop shape the cycle has. A `for` over the ready listeners is bounded in rounds, not in time:
+            # each round serves a whole request, which may take up to `timeout`; two listeners ready together (the normal state
+            # under load) give a healthy worker two timeouts of silence
             all_notifies = [n for c in method_calls(f, "notify") if tail(c.func.value) == "self" for n in nodes_with(f, c)]
-            fors = [n for n in g.nodes if n.kind == "for"]
+            fors = []
             serves = [n for c, q in repo.calls_in(f) if q and q.rsplit(".", 1)[-1] in ("accept", "handle", "handle_request") and isinstance(c.func, ast.Attribute) and tail(c.func.value) == "self"
                       for n in nodes_with(f, c)]
             for a in serves:
                 r = g.reachable([(a, "next")], without_nodes=all_notifies + fors, follow_exc=True)
                 ctx.check("C11.R3", a not in r, key(f, "serve-cycle-beats|" + a.text[:40]), site(f, a),
-                          "`%s` can be repeated in a loop of %s that never calls self.notify(): under a never-empty backlog a healthy worker stops beating and is killed for inactivity" % (a.text[:60], f.short),
+                          "`%s` can be repeated in a loop of %s without self.notify() in between (a never-empty backlog; several listeners ready in the same round): the requests served back to back share one "
+                          "timeout, a healthy worker handling requests shorter than the timeout is killed for inactivity" % (a.text[:60], f.short),
                           "every serving cycle passes notify()")
             # a polling loop (one that sleeps) beats on every round, `alive` loop or not: the drain phase after TERM / HUP /
             # max_requests can last graceful_timeout, longer than timeout
